@@ -53,9 +53,22 @@ THEOREMS = [
     "Ffcx.LNodes.Fmt.roundtrip_C_WT",
     "Ffcx.LNodes.Fmt.literal_texts_are_tokens",
     "Ffcx.LNodes.Fmt.norm_eval",
-    # statements (partial), numba (partial)
-    "Ffcx.LNodes.Fmt.roundtrip_stmt_partial",
-    "Ffcx.LNodes.Fmt.roundtrip_Py_partial",
+    # C statements (full): text -> tokens -> statement tree
+    "Ffcx.LNodes.Fmt.stmt_lex",
+    "Ffcx.LNodes.Fmt.parse_tokens_stmt",
+    "Ffcx.LNodes.Fmt.roundtrip_stmt_C",
+    "Ffcx.LNodes.Fmt.roundtrip_stmt_C_counterexample",
+    # numba expressions (full)
+    "Ffcx.LNodes.Fmt.lex_render_py",
+    "Ffcx.LNodes.Fmt.pySeparated_pieces",
+    "Ffcx.LNodes.Fmt.no_token_fusion_py",
+    "Ffcx.LNodes.Fmt.pyMono_all",
+    "Ffcx.LNodes.Fmt.rtp_all",
+    "Ffcx.LNodes.Fmt.parse_tokens_Py",
+    "Ffcx.LNodes.Fmt.roundtrip_Py",
+    "Ffcx.LNodes.Fmt.roundtrip_Py_norm",
+    "Ffcx.LNodes.Fmt.literal_texts_are_tokens_py",
+    "Ffcx.LNodes.Fmt.roundtrip_Py_counterexample",
     "Ffcx.LNodes.Fmt.roundtrip_Py_comparisons",
     # literals (full at the value level)
     "Ffcx.LNodes.Fmt.literal_readback_exact",
@@ -65,7 +78,10 @@ THEOREMS = [
 HELPER_FILES = ["FfcxProofs/Lemmas/" + f for f in (
     "FormatTables.lean", "FormatParse.lean", "FormatRT.lean", "FormatRTCases.lean", "FormatRTAll.lean",
     "FormatLex.lean", "FormatSep.lean", "FormatSepExpr.lean", "FormatNorm.lean", "FormatNum.lean",
-    "FormatLit.lean", "FormatStmt.lean", "FormatPy.lean", "FormatEval.lean", "FormatShape.lean")]
+    "FormatLit.lean", "FormatStmt.lean", "FormatPy.lean", "FormatEval.lean", "FormatShape.lean",
+    "FormatStmtLex.lean", "FormatStmtParse.lean", "FormatStmtText.lean",
+    "FormatPyParse.lean", "FormatPyRT.lean", "FormatPyRTCases.lean", "FormatPyRTAll.lean",
+    "FormatPyLex.lean", "FormatPySep.lean", "FormatPySepExpr.lean", "FormatPyShape.lean", "FormatPyNorm.lean")]
 
 REAL, SCALAR, INT, BOOL = L.DataType.REAL, L.DataType.SCALAR, L.DataType.INT, L.DataType.BOOL
 
